@@ -553,4 +553,99 @@ def run (ck : CloneKind) (w : World) (ops : List Op) : World := ops.foldl (fun w
 
 end World
 
+/-! ### terms cloned OUT of a store
+
+`TermIndex::get_term`, `Graph::triples`, `Dataset::quads` … lend `<TI::Term as Term>::BorrowTerm<'_>`.
+For `SimpleTermIndex` the source declares `type Term = SimpleTerm<'static>`, so what is lent is
+`&'_ SimpleTerm<'static>`, and safe code may write `let x: SimpleTerm<'static> = a.get_term(i).clone();`
+— `#[derive(Clone)]` of `SimpleTerm`, i.e. `cloneTermRef` on the `i2t` entry: borrowed strings stay
+pointers into the keys of `a`, and NOTHING in the type of `x` ties it to `a` any more.
+Whether the source has that shape is generated (`Gen.termEscapes`); with the term type of
+notes/fixes/C10-indexed-term-lifetime.diff the clone is a `SimpleTerm<'x>` that cannot outlive the
+borrow of `a`, i.e. it cannot be kept across any other operation on `a` (`XRes.bounded`). -/
+
+/-- a world plus the `SimpleTerm<'static>` values safe code has cloned out of stores and keeps -/
+structure XWorld where
+  w : World := {}
+  esc : List (Nat × TermRef) := []
+  deriving Repr, Inhabited
+
+inductive XOp where
+  | base (op : Op)
+  /-- `let x = a.get_term(a.get_index(t)?).clone();` resp. the clone of the first term `Term::eq` to
+  `t` that `a.triples()` / `a.quads()` yields -/
+  | esc (a : Nat) (t : Term) (x : Nat)
+  /-- read every string of `x` through its accessors -/
+  | readEsc (x : Nat)
+  /-- `drop(x)` -/
+  | dropEsc (x : Nat)
+  /-- `format!("{:?}", a)`: the derived `Debug` walks every key of `t2i` and every entry of `i2t` -/
+  | dbg (a : Nat)
+  deriving Repr, Inhabited
+
+inductive XRes where
+  | res (r : Res)
+  /-- the clone is kept, independent of the store as far as the type system knows -/
+  | escaped
+  /-- the clone cannot outlive the borrow of the store (made, read and dropped within it) -/
+  | bounded
+  /-- the store does not yield such a term -/
+  | absent
+  | bad
+  deriving Repr, DecidableEq, Inhabited
+
+/-- does some string of `t` point into released memory? -/
+def dangles (h : Heap) (t : TermRef) : Bool := (readTerm? h t).isNone
+
+/-- the `i2t` entry a store lends for `t`: its index must be known, and for a graph / dataset some
+row must mention it (only then do `triples()` / `quads()` yield it) -/
+def HStore.lent (h : Heap) (s : HStore) (t : Term) : Option TermRef :=
+  match s.ix.getIndex h t with
+  | none => none
+  | some i => if s.shape.n = 0 || s.readIdx.contains i then s.ix.i2t[i]? else none
+
+/-- every string of every key and of every entry dereferences -/
+def HStore.debuggable (h : Heap) (s : HStore) : Bool :=
+  s.ix.t2i.all (fun e => !dangles h e.1) && s.ix.i2t.all (fun t => !dangles h t)
+
+namespace XWorld
+
+def getEsc (xw : XWorld) (x : Nat) : Option TermRef := (xw.esc.find? (·.1 == x)).map (·.2)
+
+/-- `te` = the source declares `type Term = SimpleTerm<'static>` (generated: `Gen.termEscapes`) -/
+def step (ck : CloneKind) (te : Bool) (xw : XWorld) : XOp → XWorld × XRes
+  | .base op =>
+    let (w, r) := xw.w.step ck op
+    ({ xw with w }, .res r)
+  | .esc a t x =>
+    match xw.w.get a, xw.getEsc x with
+    | some s, none =>
+      match s.lent xw.w.heap t with
+      | none => (xw, .absent)
+      | some e =>
+        if te then
+          let (h, e') := cloneTermRef xw.w.heap e
+          ({ w := { xw.w with heap := h }, esc := xw.esc ++ [(x, e')] }, .escaped)
+        else (xw, .bounded)
+    | _, _ => (xw, .bad)
+  | .readEsc x =>
+    match xw.getEsc x with
+    | some e => ({ xw with w := { xw.w with heap := (readTermU xw.w.heap e).1 } }, .res .ok)
+    | none => (xw, .bad)
+  | .dropEsc x =>
+    match xw.getEsc x with
+    | some e => ({ w := { xw.w with heap := xw.w.heap.freeAll e.ownedIds }, esc := xw.esc.filter (·.1 != x) }, .res .ok)
+    | none => (xw, .bad)
+  | .dbg a =>
+    match xw.w.get a with
+    | some s =>
+      if s.debuggable xw.w.heap then (xw, .res .ok)
+      else ({ xw with w := { xw.w with heap := { xw.w.heap with ub := true } } }, .res .ok)
+    | none => (xw, .bad)
+
+def run (ck : CloneKind) (te : Bool) (xw : XWorld) (ops : List XOp) : XWorld :=
+  ops.foldl (fun xw op => (step ck te xw op).1) xw
+
+end XWorld
+
 end SophiaModel.Heap
